@@ -1,6 +1,6 @@
 (* Property C08 — the encoded file depends only on PCM and options, not on how it was written. *)
 From FlacWriters Require Import Writers Lists_proofs Params_proofs Audio_proofs Writers_proofs New_proofs Run_proofs
-     Frontend_proofs Bytes_proofs Safety_proofs Cases Cross_proofs.
+     Frontend_proofs Bytes_proofs Safety_proofs Cases Cross_proofs Cross_writes.
 Open Scope N_scope.
 
 (* every partition of the input into write calls gives the same finished stream, STREAMINFO
@@ -66,6 +66,17 @@ Theorem C08_byte_run_is_sample_run :
     byte_run enc_block md5 p wb chunks =
     sample_run enc_block md5 p ws [decoded en (N.to_nat (bytes_per_sample_of bps)) (concat chunks)].
 Proof. exact byte_writer_is_sample_writer. Qed.
+
+(* ... already at the level of the writes (an unfinished stream): the Encoder a byte writer has driven after writing any
+   byte string is the Encoder the sample writer over the same Encoder has driven after the samples those bytes spell *)
+Theorem C08_byte_write_is_sample_write :
+  forall enc_block p en e0 ch nb bs (bytes : list N),
+    1 <= nb <= 4 -> 1 <= ch -> 1 <= bs -> Forall byte_ok bytes ->
+    let wb := {| bw_enc := e0; bw_buf := []; bw_endian := en; bw_channels := ch; bw_bytes_per_sample := nb;
+                 bw_pcm_frame_size := nb * ch; bw_frame_byte_size := nb * ch * bs |} in
+    let ws := {| sw_enc := e0; sw_buf := []; sw_channels := ch; sw_frame_sample_size := ch * bs; sw_bytes_per_sample := nb |} in
+    rmap bw_enc (byte_write enc_block p wb bytes) = rmap sw_enc (sample_write enc_block p ws (decoded en (N.to_nat nb) bytes)).
+Proof. exact Cross_writes.byte_write_is_sample_write. Qed.
 
 (* ... and a FlacChannelWriter run (any list of well-formed write arguments) IS the FlacSampleWriter run over the
    interleaving of everything written *)
